@@ -278,13 +278,12 @@ class ResolvePortRefs(ElabPass):
         sig = self.copy_port(port)
 
         # Set the signal name, either from the NoConn or the instance/port names
+        # In either case, avoid collisions with everything already in the module namespace
         if noconn.name is not None:
-            sig.name = noconn.name
+            segments = [noconn.name]
         else:
-            sig.name = self.flatname(
-                segments=[f"{portref.inst.name}_{portref.portname}"],
-                avoid=module.namespace,
-            )
+            segments = [f"{portref.inst.name}_{portref.portname}"]
+        sig.name = self.flatname(segments=segments, avoid=module.namespace)
 
         # Add the new signal, and connect it to `inst`
         module.add(sig)
